@@ -21,8 +21,8 @@ Verdict(ev) ==
          IN IF e = "err" /\ ev.rc = 0 THEN "an invalid call was accepted: " \o ev.op
             ELSE IF e = "ok" /\ ev.rc # 0 THEN "a valid call was refused: " \o ev.op
             ELSE IF ev.op \in {"wclose", "tclose", "rclose"} /\ ev.live # S.live0 THEN "memory not released by close: " \o ev.op
-            ELSE IF ev.op \in {"wopen", "topen", "ropen"} /\ ev.rc # 0 /\ ev.live # ev.out[1] THEN "a failed open keeps memory: " \o ev.op
-            ELSE IF ev.op = "copy" /\ ev.live # ev.out[1] THEN "memory not released by copy"
+            ELSE IF ev.op \in {"wopen", "topen", "ropen", "wopenbad", "topenbad"} /\ ev.rc # 0 /\ ev.live # ev.out[1] THEN "a failed open keeps memory: " \o ev.op
+            ELSE IF ev.op \in {"copy", "copybad"} /\ ev.live # ev.out[1] THEN "memory not released by copy"
             ELSE ""
 
 Update(ev) ==
